@@ -1,146 +1,9 @@
 import Ogorek.Lemmas.EncParse
 import Ogorek.Lemmas.Latin1
 import Ogorek.Props.C02
+import Ogorek.Lemmas.RepKeys
 
-/-!
-  Encode → Decode: the semantic half of the round trip (C03, C05, C18).
-
-  `Rep mc heap r v` — the decoder value `r` (with its `href`s into `heap`) *represents* the
-  value `v` that was given to the encoder: identical in type and content, except
-  * `*big.Int` objects are new allocations (fresh ids),
-  * `ByteString` comes back as `string` when StrictUnicode is off,
-  * builtin maps and Dicts come back as the kind the decoder's PyDict option dictates,
-  * `nil` comes back as `None`.
-
-  `rt_val` (by mutual structural recursion over the value): the instructions the decoder parses
-  out of `enc v`, run from any state, push one value representing `v`, leave the rest of the
-  stack, the memo and the protocol alone and only extend the heap.
--/
-namespace Ogorek
-
-mutual
-def Rep (mc : MCfg) (heap : List HObj) (r : GoVal) : GoVal → Prop
-  | .none => r = .none
-  | .nil => r = .none
-  | .bool b => r = .bool b
-  | .int i => r = .int i
-  | .big _ i => ∃ id, r = .big id i
-  | .float f => r = .float f
-  | .str s => r = .str s
-  | .bytestr s => r = if mc.cfg.su then .bytestr s else .str s
-  | .bytes s => r = .bytes s
-  | .bytearray s => r = .bytearray s
-  | .cls m n => r = .cls m n
-  | .list xs => ∃ rs, r = .list rs ∧ RepList mc heap rs xs
-  | .tuple xs => ∃ rs, r = .tuple rs ∧ RepList mc heap rs xs
-  | .call m n args => ∃ rs, r = .call m n rs ∧ RepList mc heap rs args
-  | .ref pid => ∃ p, r = .ref p ∧ Rep mc heap p pid
-  | .map kvs => ∃ id es, r = .href id ∧ heap[id]? = some { kind := dictKind mc.cfg, kvs := es } ∧ RepPairs mc heap es kvs
-  | .dict kvs => ∃ id es, r = .href id ∧ heap[id]? = some { kind := dictKind mc.cfg, kvs := es } ∧ RepPairs mc heap es kvs
-  | .uint _ | .complex _ _ | .user _ | .mark | .href _ | .cycle => False
-def RepList (mc : MCfg) (heap : List HObj) : List GoVal → List GoVal → Prop
-  | [], [] => True
-  | r :: rs, x :: xs => Rep mc heap r x ∧ RepList mc heap rs xs
-  | _, _ => False
-def RepPairs (mc : MCfg) (heap : List HObj) : Entries → List (GoVal × GoVal) → Prop
-  | [], [] => True
-  | (rk, rv) :: es, (k, v) :: kvs => Rep mc heap rk k ∧ Rep mc heap rv v ∧ RepPairs mc heap es kvs
-  | _, _ => False
-end
-
-theorem getElem?_append_of_some {α} {l : List α} {i : Nat} {a : α} (t : List α) (h : l[i]? = some a) :
-    (l ++ t)[i]? = some a := by
-  have hi : i < l.length := by
-    rcases Nat.lt_or_ge i l.length with h' | h'
-    · exact h'
-    · rw [List.getElem?_eq_none h'] at h; cases h
-  rw [List.getElem?_append_left hi]; exact h
-
-mutual
-theorem Rep.mono (mc : MCfg) (h t : List HObj) (r : GoVal) : (v : GoVal) → Rep mc h r v → Rep mc (h ++ t) r v
-  | .none, hr | .nil, hr | .bool _, hr | .int _, hr | .big _ _, hr | .float _, hr | .str _, hr | .bytestr _, hr
-  | .bytes _, hr | .bytearray _, hr | .cls _ _, hr => by simpa [Rep] using hr
-  | .uint _, hr | .complex _ _, hr | .user _, hr | .mark, hr | .href _, hr | .cycle, hr => by simp [Rep] at hr
-  | .list xs, hr => by
-    simp only [Rep] at hr ⊢
-    obtain ⟨rs, e, hl⟩ := hr
-    exact ⟨rs, e, RepList.mono mc h t rs xs hl⟩
-  | .tuple xs, hr => by
-    simp only [Rep] at hr ⊢
-    obtain ⟨rs, e, hl⟩ := hr
-    exact ⟨rs, e, RepList.mono mc h t rs xs hl⟩
-  | .call m n xs, hr => by
-    simp only [Rep] at hr ⊢
-    obtain ⟨rs, e, hl⟩ := hr
-    exact ⟨rs, e, RepList.mono mc h t rs xs hl⟩
-  | .ref p, hr => by
-    simp only [Rep] at hr ⊢
-    obtain ⟨q, e, hp⟩ := hr
-    exact ⟨q, e, Rep.mono mc h t q p hp⟩
-  | .map kvs, hr => by
-    simp only [Rep] at hr ⊢
-    obtain ⟨id, es, e, hg, hp⟩ := hr
-    exact ⟨id, es, e, getElem?_append_of_some t hg, RepPairs.mono mc h t es kvs hp⟩
-  | .dict kvs, hr => by
-    simp only [Rep] at hr ⊢
-    obtain ⟨id, es, e, hg, hp⟩ := hr
-    exact ⟨id, es, e, getElem?_append_of_some t hg, RepPairs.mono mc h t es kvs hp⟩
-theorem RepList.mono (mc : MCfg) (h t : List HObj) : (rs xs : List GoVal) → RepList mc h rs xs → RepList mc (h ++ t) rs xs
-  | [], [], _ => by simp [RepList]
-  | [], _ :: _, hr => by simp [RepList] at hr
-  | _ :: _, [], hr => by simp [RepList] at hr
-  | r :: rs, x :: xs, hr => by
-    simp only [RepList] at hr ⊢
-    exact ⟨Rep.mono mc h t r x hr.1, RepList.mono mc h t rs xs hr.2⟩
-theorem RepPairs.mono (mc : MCfg) (h t : List HObj) : (es : Entries) → (kvs : List (GoVal × GoVal)) →
-    RepPairs mc h es kvs → RepPairs mc (h ++ t) es kvs
-  | [], [], _ => by simp [RepPairs]
-  | [], _ :: _, hr => by simp [RepPairs] at hr
-  | _ :: _, [], hr => by simp [RepPairs] at hr
-  | (rk, rv) :: es, (k, v) :: kvs, hr => by
-    simp only [RepPairs] at hr ⊢
-    exact ⟨Rep.mono mc h t rk k hr.1, Rep.mono mc h t rv v hr.2.1, RepPairs.mono mc h t es kvs hr.2.2⟩
-end
-
-/-- What represents a value is never the decoder's stack marker. -/
-theorem Rep.not_mark {mc : MCfg} {h : List HObj} {r v : GoVal} (hr : Rep mc h r v) : isMark r = false := by
-  cases v <;> simp only [Rep] at hr
-  all_goals first
-    | (subst hr; first | rfl | (split <;> rfl))
-    | (obtain ⟨_, rfl⟩ := hr; rfl)
-    | (obtain ⟨_, rfl, _⟩ := hr; rfl)
-    | (obtain ⟨_, _, rfl, _⟩ := hr; rfl)
-    | exact hr.elim
-
-theorem RepList.length {mc : MCfg} {h : List HObj} : {rs xs : List GoVal} → RepList mc h rs xs → rs.length = xs.length
-  | [], [], _ => rfl
-  | [], _ :: _, hr => by simp [RepList] at hr
-  | _ :: _, [], hr => by simp [RepList] at hr
-  | _ :: rs, _ :: xs, hr => by
-    simp only [RepList] at hr
-    simp [RepList.length hr.2]
-
-theorem RepList.no_mark {mc : MCfg} {h : List HObj} : {rs xs : List GoVal} → RepList mc h rs xs → ∀ r ∈ rs, isMark r = false
-  | [], [], _ => by simp
-  | [], _ :: _, hr => by simp [RepList] at hr
-  | _ :: _, [], hr => by simp [RepList] at hr
-  | r :: rs, _ :: xs, hr => by
-    simp only [RepList] at hr
-    intro x hx
-    rcases List.mem_cons.mp hx with rfl | hx
-    · exact hr.1.not_mark
-    · exact RepList.no_mark hr.2 x hx
-
-theorem RepList.snoc {mc : MCfg} {h : List HObj} : {rs xs : List GoVal} → {r x : GoVal} → RepList mc h rs xs → Rep mc h r x →
-    RepList mc h (rs ++ [r]) (xs ++ [x])
-  | [], [], _, _, _, hr => by simp [RepList, hr]
-  | [], _ :: _, _, _, hl, _ => by simp [RepList] at hl
-  | _ :: _, [], _, _, hl, _ => by simp [RepList] at hl
-  | _ :: rs, _ :: xs, _, _, hl, hr => by
-    simp only [RepList, List.cons_append] at hl ⊢
-    exact ⟨hl.1, RepList.snoc hl.2 hr⟩
-
-end Ogorek
+/-! Encode → Decode: running the encoder's output on the decoder machine (see `Lemmas/Rep.lean`). -/
 
 namespace Ogorek
 
@@ -611,24 +474,138 @@ theorem handleCall_none (proto : Nat) (m n : Bytes) (args : List GoVal) (h : res
     cases h4 : m == sb "builtins" <;> cases h5 : n == sb "bytes" <;> cases h6 : n == sb "bytearray" <;>
     simp_all <;> split <;> simp_all
 
+def freshOverB (eqf : GoVal → GoVal → Bool) : List GoVal → List GoVal → Bool
+  | _, [] => true
+  | old, k :: ks => old.all (fun o => !eqf k o) && freshOverB eqf (old ++ [k]) ks
+
+theorem freshOver_of_B {eqf : GoVal → GoVal → Bool} : (old ks : List GoVal) → freshOverB eqf old ks = true → freshOver eqf old ks
+  | _, [], _ => by simp [freshOver]
+  | old, k :: ks, h => by
+    simp only [freshOverB, Bool.and_eq_true, List.all_eq_true, Bool.not_eq_true'] at h
+    exact ⟨h.1, freshOver_of_B (old ++ [k]) ks h.2⟩
+
+/-- The keys of one map / Dict literal, as the decoder's table (Dict with PyDict, builtin map without)
+    will see them: acceptable as keys, coming back unchanged (`keyLike` / `mapKeyPlain`), and pairwise
+    different for that table's notion of equality — so no entry replaces another. -/
+def keysOK (cfg : Cfg) (kvs : Entries) : Bool :=
+  if cfg.pyDict then
+    kvs.all (fun e => keyLike cfg.su e.1 && hashable e.1) && freshOverB goEqual [] (kvs.map (·.1))
+  else
+    kvs.all (fun e => mapKeyPlain cfg.su e.1) && freshOverB goKeyEq [] (kvs.map (·.1))
+
 mutual
 /-- Values built only from the types Decode itself produces, with payloads below the 4 GiB that
-    the 4-byte length forms can carry (maps and Dicts: see `canonKeys`). -/
-def canon : GoVal → Bool
+    the 4-byte length forms can carry, and maps / Dicts whose keys are `keysOK`. -/
+def canon (cfg : Cfg) : GoVal → Bool
   | .none | .nil | .bool _ | .float _ | .big _ _ => true
   | .int i => inInt64 i
   | .str s | .bytestr s => decide (s.length < 2 ^ 32)
   | .bytes s | .bytearray s => decide (s.length < 2 ^ 31)
   | .cls m n => decide (m.length < 2 ^ 32) && decide (n.length < 2 ^ 32)
-  | .list xs | .tuple xs => canonList xs
-  | .call m n args => decide (m.length < 2 ^ 32) && decide (n.length < 2 ^ 32) && !reservedCall m n && canonList args
-  | .ref p => canon p
-  | .map _ | .dict _ => false
+  | .list xs | .tuple xs => canonList cfg xs
+  | .call m n args => decide (m.length < 2 ^ 32) && decide (n.length < 2 ^ 32) && !reservedCall m n && canonList cfg args
+  | .ref p => canon cfg p
+  | .map kvs | .dict kvs => canonPairs cfg kvs && keysOK cfg kvs
   | .uint _ | .complex _ _ | .user _ | .mark | .href _ | .cycle => false
-def canonList : List GoVal → Bool
+def canonList (cfg : Cfg) : List GoVal → Bool
   | [] => true
-  | x :: xs => canon x && canonList xs
+  | x :: xs => canon cfg x && canonList cfg xs
+def canonPairs (cfg : Cfg) : List (GoVal × GoVal) → Bool
+  | [] => true
+  | (k, v) :: r => canon cfg k && canon cfg v && canonPairs cfg r
 end
+
+section dictform
+variable {mc : MCfg} {c : ECfg}
+
+theorem goMapHashable_of_plain {su : Bool} : (k : GoVal) → mapKeyPlain su k = true → goMapHashable k = true
+  | .none, _ | .bool _, _ | .int _, _ | .float _, _ | .str _, _ | .bytes _, _ | .cls _ _, _ | .bytestr _, _ => by simp [goMapHashable]
+  | .ref p, h => by simp only [mapKeyPlain] at h; simp [goMapHashable, goMapHashable_of_plain p h]
+  | .nil, h | .uint _, h | .complex _ _, h | .bytearray _, h | .list _, h | .map _, h | .big _ _, h
+  | .dict _, h | .user _, h | .mark, h | .href _, h | .cycle, h | .tuple _, h | .call _ _ _, h => by simp [mapKeyPlain] at h
+
+theorem RepList.eq_of_plain {h : List HObj} : {rs ks : List GoVal} → RepList mc h rs ks →
+    (∀ k ∈ ks, mapKeyPlain mc.cfg.su k = true) → rs = ks
+  | [], [], _, _ => rfl
+  | [], _ :: _, hr, _ => by simp [RepList] at hr
+  | _ :: _, [], hr, _ => by simp [RepList] at hr
+  | r :: rs, k :: ks, hr, hk => by
+    simp only [RepList] at hr
+    rw [Rep.eq_of_plain k hr.1 (hk k (by simp)), RepList.eq_of_plain hr.2 (fun x hx => hk x (by simp [hx]))]
+
+theorem keyLikeList_of_all {su : Bool} : (kvs : Entries) → (∀ e ∈ kvs, keyLike su e.1 = true) → keyLikeList su (kvs.map (·.1)) = true
+  | [], _ => rfl
+  | e :: kvs, h => by
+    simp only [List.map_cons, keyLikeList, Bool.and_eq_true]
+    exact ⟨h e (by simp), keyLikeList_of_all kvs (fun x hx => h x (by simp [hx]))⟩
+
+/-- What DICT makes of the decoded keys and values, given that the encoded keys were `keysOK`. -/
+theorem assignAll_of_keysOK {h : List HObj} (kvs es : Entries) (hk : keysOK mc.cfg kvs = true) (hp : RepPairs mc h es kvs) :
+    assignAll (dictKind mc.cfg) [] (flatE es) = some es := by
+  have hkeys := hp.keys
+  unfold keysOK at hk
+  unfold dictKind
+  by_cases hpd : mc.cfg.pyDict = true
+  · simp only [hpd, if_true, Bool.and_eq_true, List.all_eq_true] at hk ⊢
+    obtain ⟨hall, hfresh⟩ := hk
+    have hkl := keyLikeList_of_all (su := mc.cfg.su) kvs (fun e he => (hall e he).1)
+    have hh : ∀ e ∈ es, hashable e.1 = true := by
+      intro e he
+      obtain ⟨x, hx, h1, h2⟩ := RepList.mem hkeys hkl e.1 (List.mem_map_of_mem he)
+      rw [h1.hashable_eq h2]
+      obtain ⟨kv, hkv, rfl⟩ := List.mem_map.mp hx
+      exact (hall kv hkv).2
+    have hf := freshOver_rep (kvs.map (·.1)) (es.map (·.1)) [] [] hkeys hkl (by simp [RepList]) rfl
+      (freshOver_of_B [] _ hfresh)
+    simpa using assignAll_dict_append es [] hh (by simpa using hf)
+  · simp only [hpd, Bool.false_eq_true, if_false, Bool.and_eq_true, List.all_eq_true] at hk ⊢
+    obtain ⟨hall, hfresh⟩ := hk
+    have hpl : ∀ k ∈ kvs.map (·.1), mapKeyPlain mc.cfg.su k = true := by
+      intro k hk'
+      obtain ⟨kv, hkv, rfl⟩ := List.mem_map.mp hk'
+      exact hall kv hkv
+    have heq := RepList.eq_of_plain hkeys hpl
+    have hh : ∀ e ∈ es, goMapHashable e.1 = true := by
+      intro e he
+      have : e.1 ∈ kvs.map (·.1) := by rw [← heq]; exact List.mem_map_of_mem he
+      exact goMapHashable_of_plain _ (hpl _ this)
+    simpa using assignAll_map_append es [] hh (by rw [heq]; simpa using freshOver_of_B [] _ hfresh)
+
+/-- `EMPTY_DICT`, or `MARK k1 v1 … DICT`. -/
+theorem pushes_dictform (kvs : Entries) (pairsOut : Out) (hk : keysOK mc.cfg kvs = true)
+    (he : pairsOut.err = none)
+    (hi : PushesN mc c (flat pairsOut) (flatE kvs).length (fun h rs => RepList mc h rs (flatE kvs))) :
+    Pushes mc c (flat (if c.proto ≥ 1 ∧ kvs.length = 0 then emit [125] else emit [40] +> pairsOut +> emit [100]))
+      (fun h r => ∃ id es, r = .href id ∧ h[id]? = some { kind := dictKind mc.cfg, kvs := es } ∧ RepPairs mc h es kvs) := by
+  split
+  · rename_i h
+    have hx : kvs = [] := List.length_eq_zero_iff.mp h.2
+    subst hx
+    rw [flat_emit]
+    refine Runs.one (parses_op 125 .emptyDict rfl parseArg_125) fun pos st _ => ?_
+    refine ⟨push { st with heap := st.heap ++ [{ kind := dictKind mc.cfg }] } (.href st.heap.length), ?_,
+      ⟨rfl, rfl, [{ kind := dictKind mc.cfg }], by simp [push]⟩, .href st.heap.length, rfl, st.heap.length, [], rfl, ?_, ?_⟩
+    · simp [exec, allocObj]
+    · simp [push]
+    · simp [RepPairs]
+  · have h1 : (emit [40] +> pairsOut).err = none := by rw [seq_err rfl]; exact he
+    rw [flat_seq _ _ h1, flat_seq _ _ rfl, flat_emit, flat_emit]
+    have hm := Runs.mark_then hi
+    refine Runs.snoc (by simpa using hm) (parses_op 100 .dict rfl parseArg_100) ?_
+    intro pos st st' _ _ ⟨rs, hst, hlen, hnm, hPL⟩
+    obtain ⟨es, rfl, hp⟩ := repPairs_of_flat kvs rs hPL
+    have hsp : splitAtMark st'.stack = some ((flatE es).reverse, st.stack) := by
+      rw [hst]; simp only [push]
+      exact splitAtMark_append (flatE es).reverse st.stack (fun r hr => hnm r (by simpa using hr))
+    have heven : ¬ ((flatE es).reverse.length % 2 ≠ 0) := by simp [flatE_length]
+    have hass := assignAll_of_keysOK kvs es hk hp
+    let o : HObj := { kind := dictKind mc.cfg, kvs := es }
+    refine ⟨{ st' with heap := st'.heap ++ [o], stack := .href st'.heap.length :: st.stack }, ?_,
+      ⟨rfl, rfl, [o], rfl⟩, .href st'.heap.length, rfl, st'.heap.length, es, rfl, by simp [o], RepPairs.mono mc _ _ es kvs hp⟩
+    simp only [exec, hsp, heven, if_false, List.reverse_reverse, hass, allocObj]
+    rfl
+
+end dictform
 
 section main
 variable {mc : MCfg} {c : ECfg} (ip : IsPrint)
@@ -644,7 +621,7 @@ theorem pushes_ref (pid : GoVal) (bs : Bytes) (h : Pushes mc c bs (fun h r => Re
 
 mutual
 theorem rt_val (hp : c.proto ≥ 1) (hsu : mc.cfg.su = c.su) (hlr : mc.listRef = false) :
-    (v : GoVal) → canon v = true → (enc ip c v).err = none →
+    (v : GoVal) → canon mc.cfg v = true → (enc ip c v).err = none →
     Pushes mc c (flat (enc ip c v)) (fun h r => Rep mc h r v)
   | .none, _, _ => by simpa [enc, Rep] using pushes_none (mc := mc) (c := c)
   | .nil, _, _ => by simpa [enc, Rep] using pushes_none (mc := mc) (c := c)
@@ -736,10 +713,34 @@ theorem rt_val (hp : c.proto ≥ 1) (hsu : mc.cfg.su = c.su) (hlr : mc.listRef =
     obtain ⟨h1, _⟩ := seq_err_none he
     rw [flat_seq _ _ h1, flat_emit]
     exact pushes_ref pid _ (rt_val hp hsu hlr pid hc h1)
-  | .map _, hc, _ | .dict _, hc, _ | .uint _, hc, _ | .complex _ _, hc, _ | .user _, hc, _ | .mark, hc, _
+  | .map kvs, hc, he => by
+    simp only [canon, Bool.and_eq_true] at hc
+    simp only [enc] at he ⊢
+    have hie : (encPairs ip c kvs).err = none := by
+      cases kvs with
+      | nil => rfl
+      | cons x xs' =>
+        have : ¬ (c.proto ≥ 1 ∧ (x :: xs').length = 0) := by simp
+        simp only [this, if_false] at he
+        exact (seq_err_none (seq_err_none he).1).2
+    have := pushes_dictform (mc := mc) (c := c) kvs (encPairs ip c kvs) hc.2 hie (rt_pairs hp hsu hlr kvs hc.1 hie)
+    simpa only [Rep] using this
+  | .dict kvs, hc, he => by
+    simp only [canon, Bool.and_eq_true] at hc
+    simp only [enc] at he ⊢
+    have hie : (encPairs ip c kvs).err = none := by
+      cases kvs with
+      | nil => rfl
+      | cons x xs' =>
+        have : ¬ (c.proto ≥ 1 ∧ (x :: xs').length = 0) := by simp
+        simp only [this, if_false] at he
+        exact (seq_err_none (seq_err_none he).1).2
+    have := pushes_dictform (mc := mc) (c := c) kvs (encPairs ip c kvs) hc.2 hie (rt_pairs hp hsu hlr kvs hc.1 hie)
+    simpa only [Rep] using this
+  | .uint _, hc, _ | .complex _ _, hc, _ | .user _, hc, _ | .mark, hc, _
   | .href _, hc, _ | .cycle, hc, _ => by simp [canon] at hc
 theorem rt_list (hp : c.proto ≥ 1) (hsu : mc.cfg.su = c.su) (hlr : mc.listRef = false) :
-    (xs : List GoVal) → canonList xs = true → (encList ip c xs).err = none →
+    (xs : List GoVal) → canonList mc.cfg xs = true → (encList ip c xs).err = none →
     PushesN mc c (flat (encList ip c xs)) xs.length (fun h rs => RepList mc h rs xs)
   | [], _, _ => by
     simp only [encList, flat, Out.nil, List.flatten_nil, List.length_nil]
@@ -759,6 +760,33 @@ theorem rt_list (hp : c.proto ≥ 1) (hsu : mc.cfg.su = c.su) (hlr : mc.listRef 
       · exact hnm y hy
     · simp only [RepList]
       exact ⟨by rw [ht]; exact Rep.mono mc _ t r x hr, hPL⟩
+theorem rt_pairs (hp : c.proto ≥ 1) (hsu : mc.cfg.su = c.su) (hlr : mc.listRef = false) :
+    (kvs : List (GoVal × GoVal)) → canonPairs mc.cfg kvs = true → (encPairs ip c kvs).err = none →
+    PushesN mc c (flat (encPairs ip c kvs)) (flatE kvs).length (fun h rs => RepList mc h rs (flatE kvs))
+  | [], _, _ => by
+    simp only [encPairs, flat, Out.nil, List.flatten_nil, flatE, List.length_nil]
+    exact Runs.weaken Runs.nil fun st st' _ e => ⟨[], by simp [e], rfl, by simp, by simp [RepList]⟩
+  | (k, v) :: kvs, hc, he => by
+    simp only [canonPairs, Bool.and_eq_true] at hc
+    simp only [encPairs] at he ⊢
+    obtain ⟨h12, h3⟩ := seq_err_none he
+    obtain ⟨h1, h2⟩ := seq_err_none h12
+    rw [flat_seq _ _ h12, flat_seq _ _ h1]
+    refine Runs.weaken (Runs.seq (Runs.seq (rt_val hp hsu hlr k hc.1.1 h1) (rt_val hp hsu hlr v hc.1.2 h2))
+      (rt_pairs hp hsu hlr kvs hc.2 h3)) ?_
+    intro st st3 _ ⟨st2, _, f3, ⟨st1, _, f2, ⟨rk, hs1, hrk⟩, ⟨rv, hs2, hrv⟩⟩, ⟨rs, hs3, hlen, hnm, hPL⟩⟩
+    obtain ⟨t2, ht2⟩ := f2.heap
+    obtain ⟨t3, ht3⟩ := f3.heap
+    have hrk2 : Rep mc st2.heap rk k := by rw [ht2]; exact Rep.mono mc _ t2 rk k hrk
+    refine ⟨rk :: rv :: rs, by simp [hs3, hs2, hs1], by simp [flatE, hlen], ?_, ?_⟩
+    · intro y hy
+      simp only [List.mem_cons] at hy
+      rcases hy with rfl | rfl | hy
+      · exact hrk.not_mark
+      · exact hrv.not_mark
+      · exact hnm y hy
+    · simp only [flatE, RepList]
+      exact ⟨by rw [ht3]; exact Rep.mono mc _ t3 rk k hrk2, by rw [ht3]; exact Rep.mono mc _ t3 rv v hrv, hPL⟩
 end
 
 end main
